@@ -326,6 +326,8 @@ def run(c, chk):
 
     # ---- R1.4 ---------------------------------------------------------------------------
     type_dispatch(c, chk)
+    construct_before_use(c, chk, 'R1.6')
+    deprecated_handling(c, chk, model)
 
 
 def all_const_callers(c, model):
@@ -433,35 +435,7 @@ def reset_typestate(c, chk, model):
         chk.ok('R1.3', 'state %d x "+="' % assign_state, 'accepted only for lists; clears CFGF_RESET', sample=True)
     elif not napp:
         chk.fail('R1.3', 'append-missing', c.where(model.fn), '"+=" is never accepted')
-    # (b') the element counter that decides "= {}" starts at 0 for every list assignment and counts every stored element
-    for tokname in ('=', '+='):
-        for tr in model.transitions(assign_state, T[tokname]):
-            if tr.kind != 'next' or not kind_facts(tr).get('list'):
-                continue
-            nv = tr.next.get('num_values')
-            if nv != sym.C0:
-                chk.fail('R1.3', 'element-counter-not-reset:%s' % tokname, c.where(model.fn),
-                         'a list assignment ("%s") does not restart the element counter (it becomes %s): a later "= {}" is not recognised as '
-                         'empty when an earlier list in the same section had elements, and keeps the old values' % (tokname, sym.render(nv) if nv else 'unchanged'),
-                         witness=[tr.describe()])
-                break
-        else:
-            continue
-        break
-    else:
-        chk.ok('R1.3', 'element counter', 'reset to 0 by "=" and "+=" on a list', sample=False)
-    counted = False
-    for s_ in model.states:
-        for tr in model.transitions(s_, T['STR']):
-            if tr.kind == 'next' and 'cfg_setopt' in tr.call_names() and kind_facts(tr).get('list') and not is_failure_variant(tr):
-                nv = tr.next.get('num_values')
-                if nv == ('bin', 'add', ('p', 'num_values'), ('c', 1)):
-                    counted = True
-                elif nv in (None, ('p', 'num_values')):
-                    chk.fail('R1.3', 'element-not-counted:state%d' % s_, c.where(model.fn),
-                             'state %d stores a list element without counting it: "= {x}" would be treated like "= {}"' % s_, witness=[tr.describe()])
-    if counted:
-        chk.ok('R1.3', 'element counting', 'every stored list element increments the counter')
+    element_counter(c, chk, model, assign_state, 'R1.3')
     # (c) consumers
     for fname in ('cfg_setopt', 'cfg_opt_getval'):
         fn = c.need(fname)
@@ -542,6 +516,46 @@ VALUE_TYPES = {'cfg_setopt': {'CFGT_INT', 'CFGT_FLOAT', 'CFGT_STR', 'CFGT_BOOL',
                'cfg_addlist_internal': {'CFGT_INT', 'CFGT_FLOAT', 'CFGT_STR', 'CFGT_BOOL'}}
 
 
+def element_counter(c, chk, model, assign_state, rid):
+    """the element counter that decides "= {}" starts at 0 for every list assignment and counts every stored element"""
+    if assign_state is None:
+        for s in model.states:
+            trs = [tr for tr in model.transitions(s, T['=']) if tr.kind == 'next']
+            if trs and all(any(flag_store(e, 64) == 'set' for e in tr.events if e.kind == 'store') for tr in trs):
+                assign_state = s
+        if assign_state is None:
+            raise report.Broken('the parser state that accepts "=" was not found')
+    # (b') the element counter that decides "= {}" starts at 0 for every list assignment and counts every stored element
+    for tokname in ('=', '+='):
+        for tr in model.transitions(assign_state, T[tokname]):
+            if tr.kind != 'next' or not kind_facts(tr).get('list'):
+                continue
+            nv = tr.next.get('num_values')
+            if nv != sym.C0:
+                chk.fail(rid, 'element-counter-not-reset:%s' % tokname, c.where(model.fn),
+                         'a list assignment ("%s") does not restart the element counter (it becomes %s): a later "= {}" is not recognised as '
+                         'empty when an earlier list in the same section had elements, and keeps the old values' % (tokname, sym.render(nv) if nv else 'unchanged'),
+                         witness=[tr.describe()])
+                break
+        else:
+            continue
+        break
+    else:
+        chk.ok(rid, 'element counter', 'reset to 0 by "=" and "+=" on a list', sample=False)
+    counted = False
+    for s_ in model.states:
+        for tr in model.transitions(s_, T['STR']):
+            if tr.kind == 'next' and 'cfg_setopt' in tr.call_names() and kind_facts(tr).get('list') and not is_failure_variant(tr):
+                nv = tr.next.get('num_values')
+                if nv == ('bin', 'add', ('p', 'num_values'), ('c', 1)):
+                    counted = True
+                elif nv in (None, ('p', 'num_values')):
+                    chk.fail(rid, 'element-not-counted:state%d' % s_, c.where(model.fn),
+                             'state %d stores a list element without counting it: "= {x}" would be treated like "= {}"' % s_, witness=[tr.describe()])
+    if counted:
+        chk.ok(rid, 'element counting', 'every stored list element increments the counter')
+
+
 def type_dispatch(c, chk):
     enum = c.confuse.enums.get('cfg_type_t')
     if not enum:
@@ -586,3 +600,82 @@ def type_dispatch(c, chk):
                 chk.ok('R1.4', fname, 'handles %s' % sorted(handled))
         else:
             chk.ok('R1.4', fname, 'arms for %s' % sorted(handled), sample=(fname == 'cfg_setopt'))
+
+
+# ---- R1.6: a context is complete before code that reads it runs ------------------------------------
+
+def construct_before_use(c, chk, rid, only_fields=None, define_rule=True):
+    """a freshly allocated context must not have a member (re)assigned after it was handed to library code that
+    reads that member: what that code created meanwhile (sections copy the parent's flags, error function, file
+    name) was derived from the unfinished value"""
+    from ..summaries import field_reads
+    if define_rule:
+        chk.rule(rid, 'a new context has every member that cfg_init_defaults()/the parser read assigned before it is handed to them')
+    reads = field_reads(c.modules)
+    ex = sym.Explorer(c.modules, max_visits=2, mod_sets=c.mod_sets, max_paths=50000)
+    nsites = 0
+    reported = set()
+    for f in c.confuse.funcs.values():
+        if f.name in c.unknown_funcs:
+            continue
+        if not any(call.callee_name() == 'calloc' for g in c.deep_funcs(f) for call in g.calls()):
+            continue
+        makes = False
+        for p in ex.explore(f):
+            if p.end != 'ret':
+                continue
+            handed = {}       # fresh object -> [(event index, callee, fields read)]
+            for i, e in enumerate(p.events):
+                if e.kind == 'call' and not e.inlined and e.name in reads and c.func(e.name) is not None:
+                    for a in e.args:
+                        if a[0] == 'call' and a[1] == 'calloc':
+                            handed.setdefault(a, []).append((i, e.name, reads[e.name]))
+                elif e.kind == 'store' and e.addr[0] == 'fld' and e.addr[2] == 'cfg_t' and e.addr[1] in handed:
+                    fld = e.addr[3]
+                    if only_fields and fld not in only_fields:
+                        continue
+                    for i0, callee, rd in handed[e.addr[1]]:
+                        if fld in rd:
+                            key = 'late-init:%s:%s:%s' % (f.name, fld, callee)
+                            if key not in reported:
+                                reported.add(key)
+                                chk.fail(rid, key, c.where(e.ins), '%s() assigns the new context\'s "%s" only after %s() has already run on it, which reads that member: '
+                                         'sections created by then copied the unfinished value (e.g. they miss the context flags)' % (f.name, fld, callee))
+            if handed:
+                makes = True
+        if makes:
+            nsites += 1
+            if not any(k.startswith('late-init:%s:' % f.name) for k in reported):
+                chk.ok(rid, f.name, 'every member the callees read is assigned before the new context is handed to them', sample=True)
+    chk.floor('%s functions that build a context and hand it on' % rid, nsites, 1)
+
+
+# ---- R1.7: a deprecated option is dealt with when its statement is complete ---------------------------
+
+def deprecated_handling(c, chk, model):
+    chk.rule('R1.7', 'before the parser forgets the option it just completed (next name, closing brace, end of input) it has tested it for CFGF_DEPRECATED')
+    n = 0
+    bad = None
+    for tokname, tok in sorted(pm.TOKENS.items()):
+        if tokname == 'ERR':
+            continue
+        try:
+            trs = model.transitions(0, tok)
+        except sym.AnalysisIncomplete:
+            continue
+        for tr in trs:
+            if tr.kind not in ('next', 'ret') or (tr.kind == 'ret' and tr.ret == 1):
+                continue          # a failed parse: what was read is discarded anyway
+            n += 1
+            examined = any(sym.mentions(cn, lambda v: v == ('p', 'opt')) for cn, t, _ in tr.assume)
+            kept = tr.kind == 'next' and tr.next_state == 0 and tr.next.get('opt') == ('p', 'opt')
+            if not examined and not kept:
+                bad = bad or (tokname, tr)
+    if bad:
+        tokname, tr = bad
+        chk.fail('R1.7', 'deprecated-unhandled:%s' % tokname, c.where(model.fn),
+                 'in state 0, on token %s the parser %s without having looked at the option it completed last: a CFGF_DEPRECATED|CFGF_DROP option that is '
+                 'followed by this token is neither reported nor dropped' % (tokname, tr.outcome()), witness=[tr.describe()] if hasattr(tr, 'describe') else None)
+    else:
+        chk.ok('R1.7', 'state 0: %d transitions' % n, 'each either tests the completed option (NULL / CFGF_DEPRECATED -> cfg_handle_deprecated) or keeps it pending', sample=True)
+    chk.floor('R1.7 transitions out of state 0', n, 8)
